@@ -54,6 +54,7 @@ MANIFEST = dict(
     note=("A1 real arithmetic; A5: every tolerance test on a path is replaced by the exact contract of that predicate (membership, ==, parallel, orthogonal, null), whose tolerance contracts are proved in C05/C08/C19; "
           "admissions are logged. The exact contract of solve() is the one proved in C16. Callee contracts are stubs: a caller is checked against the contract, not the body. "
           "A labelled bounded stand-in (catalogue of designed relative positions, exact rational oracle) cross-checks the proved contracts on CPython floats and is not counted as proved."),
+    technique='contract-based deductive verification of the real intersection handlers and dispatcher (symbolic execution on z3 reals; proof scripts; z3 / cvc5 back ends) + labelled bounded cross-check of all 25 flat pairs against an exact rational oracle (operand variants, repeated questions)',
     design_ref="DESIGN.md section 9 (C01), sections 3.1-3.5",
 )
 EXPLANATION = ("Handlers are proved one by one against contracts; SET-world obligations are ground EUF over membership atoms and hold for all operands; COORD-world obligations are polynomial "
